@@ -34,8 +34,14 @@ ValCases == SetToSeq(Values)
 \* byte counts beyond 32 bits are given as a small count of a unit (the driver multiplies): up to 2^62
 ScaledNs == {1, 2, 3, 5, 1023, 1024, 1025, 2048, 4096, 1048575, 1048576, 4194304, 8388607}
 ScaledCases == SetToSeq({[n |-> n, unit |-> u] : n \in ScaledNs, u \in Units})
+\* durations (cleanup interval, default lifetime, ...): a count of a time unit, written to JSON and read back
+DurNs == {0, 1, 2, 59, 60, 61, 90, 999, 1000, 1500, 3600, 86400}
+DurUnits == {"ns", "us", "ms", "s", "m", "h"}
+DurCases == SetToSeq({[n |-> n, unit |-> u] : n \in DurNs, u \in DurUnits})
+NBase == Len(StrCases) + Len(ValCases) + Len(ScaledCases)
 WriteCases == ndJsonSerialize(CaseFile,
-    [i \in 1..(Len(StrCases) + Len(ValCases) + Len(ScaledCases)) |->
+    [i \in 1..(NBase + Len(DurCases)) |->
+        IF i > NBase THEN [id |-> i, dn |-> DurCases[i - NBase].n, dunit |-> DurCases[i - NBase].unit] ELSE
         IF i <= Len(StrCases) THEN [id |-> i, s |-> StrCases[i], unit |-> IF StrCases[i] # <<>> THEN StrCases[i][Len(StrCases[i])] ELSE ""]
         ELSE IF i <= Len(StrCases) + Len(ValCases) THEN [id |-> i, n |-> ValCases[i - Len(StrCases)]]
         ELSE [id |-> i, sn |-> ScaledCases[i - Len(StrCases) - Len(ValCases)].n, sunit |-> ScaledCases[i - Len(StrCases) - Len(ValCases)].unit]])
@@ -52,6 +58,8 @@ BadVal == {i \in 1..Len(Results) : "n" \in DOMAIN Results[i] /\
               LET r == Results[i] IN ~(r.res = "ok" /\ r.val = r.n)}
           \cup {i \in 1..Len(Results) : "sn" \in DOMAIN Results[i] /\
               LET r == Results[i] IN ~(r.res = "ok" /\ r.q = r.sn /\ r.rem = 0)}
+          \cup {i \in 1..Len(Results) : "dn" \in DOMAIN Results[i] /\
+              LET r == Results[i] IN ~(r.res = "ok" /\ r.q = r.dn /\ r.rem = 0)}
 FirstN(S, n) == {i \in S : Cardinality({j \in S : j < i}) < n}
 Judge == PrintT(<<"SIZE-RESULT", Len(Results), Cardinality(BadStr), Cardinality(BadVal),
                   {Results[i] : i \in FirstN(BadStr, 8)}, {Results[i] : i \in FirstN(BadVal, 8)}>>)
